@@ -192,7 +192,7 @@ package generic
 // hookErr: ghost - what the on-open hook returned
 //@ ghost hookErr error
 //@ func (*Driver).Open [C06 C07 C17]
-//@   requires RI(d.Channel.Q) && d.Channel.Errs != d.Channel.Q.depthChan && d.Channel.PromptSearchDepth >= 0
+//@   requires RI(d.Channel.Q) && d.Channel.Errs != d.Channel.Q.depthChan && d.Channel.done != d.Channel.Q.depthChan && d.Channel.PromptSearchDepth >= 0
 //@   at call! Open#1 assert #the-channel-is-opened-first recv == d.Channel
 //@   after call Open#1 set hookErr = nil
 //@   after call dyn#1 set hookErr = result
